@@ -16,6 +16,7 @@ class Env:
     def __init__(self, a, s0, s1=None, res=None, exc=None, eng=None, role="assume"):
         self.a, self.s0, self.s1, self.res, self.exc, self.eng = a, s0, s1, res, exc, eng
         self.role = role   # 'goal': the expression is being proved on the function body; 'assume': used at a call site
+        self.exc_value = None   # when proving a raising exit: the exception object (VExc with its constructor arguments)
 
     def __getitem__(self, k):
         return self.a[k]
